@@ -501,7 +501,9 @@ def _build_files(S, scratch, git, HarnessError):
     F["loose.atk:bomb-honest-16MiB"] = {"dir": {loose_rel(HEX(_bid(bytes(16 << 20)))): bombz}, "targets": {}, "name": HEX(_bid(bytes(16 << 20))), "type": pa.BLOB,
                                         "legit": 16 << 20}
     F["loose.atk:bomb-32MiB-declared-6-bytes"] = {"dir": {loose_rel(HEX(B1_ID)): zlib.compress(b"blob 6\x00" + bytes(32 << 20), 9)}, "targets": {},
-                                                  "name": HEX(B1_ID), "type": pa.BLOB, "legit": 0}
+                                                  "name": HEX(B1_ID), "type": pa.BLOB, "legit": 32 << 20}
+    # (legit = 32 MiB: dulwich documents that a loose object is inflated up to loose_object_size_limit, 512 MiB by default,
+    # whatever its header declares; the header/payload disagreement itself is judged by the hash clause)
     # ---- index files
     blob = HEX(B1_ID)
     for v in (2, 4):
